@@ -21,11 +21,13 @@ Import ListNotations.
 Record params := mkParams {
   p_cmap : Z -> Z;             (* class of the allocated result for a source object of this class *)
   p_late : Z -> option Z;      (* Some c: the allocated result is a mapping object, replaced at the end by a new object of class c *)
-  p_refix : bool               (* apply_circular_fixes: re-read every relationship value from the memo after initialisation *)
+  p_refix : bool;              (* apply_circular_fixes: re-read every relationship value from the memo after initialisation *)
+  p_keep : bool                (* the state pins every memoised source object (ToDAOState.keep_alive; FromDAOState.keep_alive
+                                  since repo commit 32013a0): its address cannot be recycled while the memo refers to it *)
 }.
 
-Record st := mkSt { memo : list (addr * addr); dst : heap; nxt : addr }.
-Definition st0 : st := mkSt [] empty_heap 0.
+Record st := mkSt { memo : list (addr * addr); dst : heap; nxt : addr; keep : list addr }.
+Definition st0 : st := mkSt [] empty_heap 0 [].
 Definition mlook (a : addr) (s : st) : option addr := assoc a (memo s).
 
 Section Walk.
@@ -86,18 +88,19 @@ Section Walk.
             | None => None
             | Some o =>
                 let d := nxt s in                                  (* cls() / original_class.__new__ *)
-                let s1 := mkSt ((a, d) :: memo s) (dst s) (S d) in (* register BEFORE descending *)
+                let s1 := mkSt ((a, d) :: memo s) (dst s) (S d)            (* register BEFORE descending; keep_alive[id] = obj *)
+                               (if p_keep P then a :: keep s else keep s) in
                 match walk_flds (walk f) (oflds o) s1 with
                 | None => None
                 | Some (fl, s2) =>
                     let fl' := if p_refix P then refix_flds s2 (oflds o) fl else fl in
                     let c := p_cmap P (ocls o) in
-                    let s3 := mkSt (memo s2) (upd (dst s2) d (mkObj c (oscal o) fl')) (nxt s2) in
+                    let s3 := mkSt (memo s2) (upd (dst s2) d (mkObj c (oscal o) fl')) (nxt s2) (keep s2) in
                     match p_late P c with
                     | None => Some (d, s3)
                     | Some c' =>                                   (* create_from_dao(): a NEW object; memo updated last *)
                         let d' := nxt s3 in
-                        Some (d', mkSt ((a, d') :: memo s3) (upd (dst s3) d' (mkObj c' (oscal o) fl')) (S d'))
+                        Some (d', mkSt ((a, d') :: memo s3) (upd (dst s3) d' (mkObj c' (oscal o) fl')) (S d') (keep s3))
                     end
                 end
             end
